@@ -134,7 +134,18 @@ def build_case(rng, opname, cause):
             if opname == "sell":
                 op["amount"] = (held + step * 3).quantize(step)   # negative floor keeps every bid: reject through the holding
         elif cause == "cash":
-            spec["cash"] = str(Decimal(str(levels[0][0])) * Decimal(op["amount"]) * Decimal("0.9"))
+            # the account can pay less than premium + fee: well short, short by a hair, exactly the premium, or the premium and part of the
+            # fee (a debit made in two steps would take the premium and then fail on the fee)
+            left, premium = Decimal(op["amount"]), Decimal(0)
+            for l in levels:
+                take = min(left, L.level_dec(l[1]))
+                premium += take * Decimal(str(l[0]))
+                left -= take
+                if left <= 0:
+                    break
+            fee = min(Decimal("0.0003") * Decimal(op["amount"]), Decimal("0.125") * premium)
+            spec["cash"] = str(rng.choice((premium * Decimal("0.9"), premium * Decimal("0.999999"), premium, premium + fee / 2,
+                                           premium + fee * Decimal("0.999"), Decimal(0))))
             spec["prefix"] = []
             sclass = "fresh"
         elif cause in ("cash-cap", "cash-limit-cap"):
